@@ -2,6 +2,7 @@ package main
 
 import (
 	"fmt"
+	"strings"
 
 	"github.com/yaricom/goNEAT/v4/neat/genetics"
 )
@@ -44,6 +45,7 @@ type popMonitor struct {
 	seenSpecies map[int]*genetics.Species // every species id ever seen -> the species object
 	ctorSpecies map[*genetics.Species]bool
 	firstEpoch  bool
+	preSnaps    []*SnapGenome
 }
 
 func (m *popMonitor) detail(sc *EvoScenario, gen int) map[string]interface{} {
@@ -125,8 +127,12 @@ func (m *popMonitor) BeforeEpoch(c *Ctx, sc *EvoScenario, gen int, pop *genetics
 		return
 	}
 	m.prevOrgs = map[*genetics.Organism]bool{}
+	m.preSnaps = nil
 	for _, org := range pop.Organisms {
 		m.prevOrgs[org] = true
+		if sc.Ctor == ctorRandom {
+			m.preSnaps = append(m.preSnaps, snapGenome(org.Genotype))
+		}
 	}
 	m.pre = snapSpecies(pop)
 }
@@ -140,7 +146,16 @@ func (m *popMonitor) AfterEpoch(c *Ctx, sc *EvoScenario, gen int, pop *genetics.
 		return false
 	}
 	if err != nil {
-		c.Violate("epoch-error", m.detail(sc, gen), "epoch %d failed: %v", gen, firstLine(err.Error()))
+		d := m.detail(sc, gen)
+		msg := firstLine(err.Error())
+		if sc.Ctor == ctorRandom && strings.Contains(strings.ToLower(msg), "genes") {
+			// is it the recorded finding? only if a pair of pre-epoch genomes reproduces it
+			if w := diagnoseGeneLessChild(m.preSnaps); w != nil {
+				d["key"] = keyGeneLessChild
+				d["witness"] = w
+			}
+		}
+		c.Violate("epoch-error", d, "epoch %d failed: %v", gen, msg)
 		return false
 	}
 	c.Count("epochs", 1)
